@@ -139,9 +139,47 @@ def judge_pair(lib, rec, text, bg, large, vr, up, down):
                                   f"text size the result is {(bcol, bstatus)!r} (dE {bd})", dict(case, route="bulk"))
             except Exception as e:
                 rec.violation(f"make_readable_bulk raised {type(e).__name__}: {e}", dict(case, route="bulk"))
+        # the same obligation with the pair written in another accepted spelling; translucent text is written so that what is
+        # seen over this background is exactly `text` (the "original" of the statement is the colour displayed)
+        if key is None and (mode + text[0] + bg[1]) % 3 == 0:
+            spelled_route(lib, rec, text, bg, large, vr, mode, case)
         if len(rec.samples) < 3:
             rec.sample({"text": list(text), "bg": list(bg), "large": large, "vr": vr, "mode": mode, "witness": w,
                         "returned": list(colour), "success": success, "own_dE": round(d, 3)})
+
+
+def spelled_route(lib, rec, text, bg, large, vr, mode, case):
+    from cmv import pairwork as PW
+    from cmv.gen import spellings as SP
+    rnd = G.rng("c03sp", text, bg, mode)
+    tr = PW.translucent_seen_as(rnd, text, bg) if rnd.random() < 0.6 else None
+    if tr is not None:
+        tsp, tk = tr[0], tr[1]
+    else:
+        tk, tsp = rnd.choice(SP.available(text))
+    bk, bsp = rnd.choice(SP.available(bg))
+    cs = dict(case, route="spelled", stext=SP.jsonable(tsp), tk=tk, sbg=SP.jsonable(bsp), bk=bk)
+    try:
+        sp = lib.ColorPair(tsp, bsp, large_text=large)
+        if not sp.is_valid or tuple(sp.bg.rgb) != tuple(bg):
+            rec.count("spelled_not_judged(C07)")
+            return
+        seen = tuple(sp.text.rgb)
+        if seen != tuple(text) and all(abs(x - y) <= 1.5 for x, y in zip(seen, text)):
+            rec.count("spelled_not_judged(composite within C13 tolerance of another colour)")
+            return
+        colour, success = sp.make_readable(mode=mode, very_readable=vr)
+    except Exception as e:
+        rec.violation(f"ColorPair({tsp!r},{bsp!r}) raised {type(e).__name__}: {e}", cs)
+        return
+    rec.count("spelled_route_judged")
+    rec.count("spelled_text_kind:" + tk)
+    rb = PW.readback(colour)
+    d = own_de(text, tuple(rb)) if rb is not None else None
+    cs["observed"] = repr((colour, success))
+    if success is not True or d is None or d > 2.0 + DE_SLACK:
+        rec.violation(f"text={tsp!r} bg={bsp!r} (displayed as {text} on {bg}) large={large} vr={vr} mode={mode}: a witness exists, but "
+                      f"make_readable -> {(colour, success)!r} (dE from the displayed text {d}; the library worked on {seen})", cs)
 
 
 def work(shard, rec):
@@ -180,6 +218,17 @@ def replay(case):
     up, down = scan(t, b, mn)
     print(f"text {t} bg {b} large={case['large']} vr={case['vr']}: original ratio {wcag.ratio(t, b):.4f}, minimum {mn}")
     print(f"independent scan: witness lighter = {up}, darker = {down}; classifier key = {classify(b, up, down)}")
+    if case.get("route") == "spelled":
+        from cmv import pairwork as PW
+        from cmv.gen import spellings as SP
+        tsp, bsp = SP.from_json(case["stext"], case["tk"]), SP.from_json(case["sbg"], case["bk"])
+        pr = lib.ColorPair(tsp, bsp, large_text=case["large"])
+        out = pr.make_readable(mode=case["mode"], very_readable=case["vr"])
+        rb = PW.readback(out[0])
+        print(f"ColorPair({tsp!r},{bsp!r}): library sees {pr.text.rgb} on {pr.bg.rgb}; make_readable(mode={case['mode']}) -> {out!r}")
+        ok = not (up or down) or (out[1] is True and rb is not None and own_de(t, tuple(rb)) <= 2.0 + DE_SLACK)
+        print("holds" if ok else "VIOLATED")
+        return ok
     out = lib.ColorPair(t, b, large_text=case["large"]).make_readable(mode=case["mode"], very_readable=case["vr"])
     print(f"make_readable(mode={case['mode']}) -> {out!r}")
     ok = not (up or down) or (out[1] is True and own_de(t, tuple(out[0])) <= 2.0 + DE_SLACK)
